@@ -334,3 +334,55 @@ def Sparse.wfb (v : Sparse) : Bool :=
                 decide ((gs + v.grainSize) * S ≤ v.fh.size)
     | .error _ => false)
 end Hv.Vmdk
+
+namespace Hv.Vmdk
+/-! ### Specification (VMware Virtual Disk Format 1.1; SE-sparse per QEMU block/vmdk.c) -/
+
+/-- grain-table entry for grain `g` as the format defines it: 0 = not present, 1 = zero
+    grain, otherwise the sector at which the grain's data starts -/
+def Sparse.specGrain (v : Sparse) (g : Nat) : Nat :=
+  let e := v.gd.getD (g / v.gtSize) 0
+  match v.kind with
+  | .sesparse =>
+    -- directory entry: top nibble 1 = allocated table, low 32 bits = table index
+    if e = 0 ∨ e &&& 0xFFFFFFFF00000000 ≠ 0x1000000000000000 then 0 else
+    let t := leNat (slice v.fh.byte
+      ((v.grainTablesOffset + (e &&& 0xFFFFFFFF) * (v.gtSize * 8) / 512) * 512 + (g % v.gtSize) * 8) 8)
+    let ty := t &&& 0xF000000000000000
+    if ty = 0 ∨ ty = 0x1000000000000000 then 0
+    else if ty = 0x2000000000000000 then 1
+    else v.grainsOffset + (((t &&& 0x0FFF000000000000) >>> 48) ||| ((t &&& 0x0000FFFFFFFFFFFF) <<< 12)) * v.grainSize
+  | _ => if e = 0 then 0 else leNat (slice v.fh.byte (e * 512 + (g % v.gtSize) * 4) 4)
+
+/-- guest byte at disk-relative offset `o` of an uncompressed sparse extent; `pc` = parent
+    content by absolute byte offset -/
+def Sparse.guest (v : Sparse) (pc : Nat → UInt8) (o : Nat) : UInt8 :=
+  let gs := v.specGrain (o / 512 / v.grainSize)
+  if gs = 0 then (if v.parent.isSome then pc (v.sectorOffset * 512 + o) else 0)
+  else if gs = 1 then 0
+  else v.fh.byte ((gs + o / 512 % v.grainSize) * 512 + o % 512)
+
+/-- number of grains needed for the capacity -/
+def Sparse.nGrains (v : Sparse) : Nat := (v.capacity + v.grainSize - 1) / v.grainSize
+
+structure WF (v : Sparse) : Prop where
+  uncompressed : v.flags &&& Extracted.vmdk.SPARSEFLAG_COMPRESSED = 0
+  gs_pos : 0 < v.grainSize
+  gt_pos : 0 < v.gtSize
+  covers : v.nGrains ≤ v.gd.size * v.gtSize
+  /-- every lookup needed succeeds with the format's value -/
+  lookup : ∀ g, g < v.nGrains → v.lookupGrain g = .ok (v.specGrain g)
+  /-- allocated grains lie inside the file -/
+  grains_in : ∀ g, g < v.nGrains → 1 < v.specGrain g → (v.specGrain g + v.grainSize) * 512 ≤ v.fh.size
+
+end Hv.Vmdk
+
+namespace Hv.Vmdk
+/-- executable form of `WF` -/
+def Sparse.wfbU (v : Sparse) : Bool :=
+  decide (v.flags &&& Extracted.vmdk.SPARSEFLAG_COMPRESSED = 0) && decide (0 < v.grainSize) && decide (0 < v.gtSize) &&
+  decide (v.nGrains ≤ v.gd.size * v.gtSize) &&
+  (List.range v.nGrains).all (fun g =>
+    decide (v.lookupGrain g = .ok (v.specGrain g)) &&
+    (decide (v.specGrain g ≤ 1) || decide ((v.specGrain g + v.grainSize) * 512 ≤ v.fh.size)))
+end Hv.Vmdk
